@@ -92,7 +92,7 @@ fn gen(seed: u64, idx: u64, _tier: Tier) -> Plan {
     plan.server = Some(s);
     let sockets = 1 + rng.below(24) as u32;
     let n = 30 + rng.below(300) as u32;
-    let end = storm(&mut rng, &mut plan, n, sockets, 1000);
+    let end = storm(&mut rng, &mut plan, n, sockets, 6000);
     // faults stop after the storm; then up to 8 sentinels
     plan.world.faults_until_ms = end / 1000 + 5;
     sentinels(&mut plan, 8, end + 20_000);
